@@ -64,6 +64,22 @@ def replayer(prefix):
     return deco
 
 
+def model_of(o, names, timeout=30, solvers=("cvc5", "z3")):
+    """Values of the named constants in a counter-model of obligation o (dict name -> python)."""
+    ts = []
+    for n in names:
+        d = o.decls.funs.get(n)
+        if d is None:
+            continue
+        ts.append(tm.T(d.split()[-1].rstrip(")"), n))
+    text = o.smt(getvals=ts)
+    r = solve.run_query(text, timeout, solvers)
+    if r.verdict != "sat":
+        return None
+    vals = solve.parse_values(r.output)
+    return {k: solve.smt_value_to_py(v) for k, v in vals.items()}
+
+
 class LemmaOb:
     def __init__(self, name, hyps, goal, decls, meta):
         self.name, self.hyps, self.goal, self.decls, self.meta = name, hyps, goal, decls, meta
